@@ -34,7 +34,7 @@ META = {
                     'by a one-letter marker token; no catcode op inside an argument group; \\gdef writes the bottom frame and '
                     'may be shadowed by a live local definition (lookup yields the innermost live definition)',
                     'no fault space exists for this property (sequential refinement only)'],
-    'probe_names': ['dfs_exhaustive', 'catalogue_scope', 'catalogue_dimen_spelling', 'catalogue_raise', 'declaration_frame', 'change_after_declaration_restored', 'char_let_shadowed', 'local_def_restored', 'global_def_survives', 'let_restored', 'catcode_restored', 'if_survives', 'counter_survives',
+    'probe_names': ['dfs_exhaustive', 'fresh_name_global_in_nesting', 'catalogue_scope', 'catalogue_dimen_spelling', 'catalogue_raise', 'declaration_frame', 'change_after_declaration_restored', 'char_let_shadowed', 'local_def_restored', 'global_def_survives', 'let_restored', 'catcode_restored', 'if_survives', 'counter_survives',
                     'nested_depth_ge3', 'env_inside_group', 'group_inside_env', 'math_group', 'cell_scope', 'argument_group',
                     'gdef_shadowed', 'catcode_cow_two_frames'],
     'shrink_budget': 400,
@@ -44,6 +44,7 @@ META = {
 NAMES = ['na', 'nb', 'nc']
 LNAMES = ['la', 'lb']
 ALLNAMES = NAMES + LNAMES
+FRESH = ['qfa', 'qfb']       # names that are NOT defined at the start: existence tests (\ifdefined, `in`, keys()) follow the stack too
 API_KINDS = ['group', 'env']
 TEX_KINDS = ['brace', 'begingroup', 'center', 'quote', 'math', 'cell', 'textbf', 'mbox', 'parenmath', 'displaymath',
              'equation', 'itemize', 'minipage', 'footnote', 'dollars', 'figurestar', 'multicolumn']
@@ -85,12 +86,14 @@ def generate(seed, tier):
         elif o == 'SETCOUNTER':
             ops.append({'op': 'STEP', 'how': r.choice(['set', 'add']), 'n': r.randint(0, 9)})
         elif o in ('DEF_LOCAL', 'DEF_GLOBAL'):
-            ops.append({'op': o, 'name': r.choice(NAMES), 'id': ident, 'form': r.choice(['plain', 'plain', 'e'])})
+            ops.append({'op': o, 'name': r.choice(NAMES + NAMES + FRESH), 'id': ident, 'form': r.choice(['plain', 'plain', 'e'])})
             ident += 1
             if r.random() < 0.2:
                 ops.append({'op': 'EMPTY'})
         elif o == 'LET':
             a, b = r.sample(ALLNAMES if r.random() < 0.4 else NAMES, 2)
+            if r.random() < 0.15:
+                a = r.choice(FRESH)
             ops.append({'op': 'LET', 'dst': a, 'src': b})
         elif o == 'CATCODE':
             ops.append({'op': 'CATCODE', 'code': r.choice([11, 12, 11, 12, 13])})
@@ -103,7 +106,7 @@ def generate(seed, tier):
         elif o == 'STEP':
             ops.append({'op': 'STEP'})
         else:
-            ops.append({'op': 'PROBE', 'what': r.choice(NAMES + LNAMES + ['cat', 'if', 'counter', 'all'])})
+            ops.append({'op': 'PROBE', 'what': r.choice(NAMES + LNAMES + ['cat', 'if', 'counter', 'all', 'fresh'])})
         if r.random() < 0.3:
             ops.append({'op': 'PROBE', 'what': r.choice(NAMES + ['cat', 'all'])})
     while depth:
@@ -212,6 +215,8 @@ class Model(object):
         self.frames[-1]['macros'][name] = '%s%d' % (name, ident)
 
     def def_global(self, name, ident):
+        if name in FRESH and self.lookup(name) is None and len(self.frames) >= 3:
+            self.info['fresh_name_global_in_nesting'] = 1
         self.frames[0]['macros'][name] = '%s%d' % (name, ident)
         self.frames[-1]['gdef'] = 1
         if any(name in f['macros'] for f in self.frames[1:]):
@@ -324,6 +329,17 @@ def run_api(ops):
                 cls_ = 'local-leaked' if o == 'CLOSE' else ('lookup' if o in ('PROBE', 'OPEN') else o.lower())
                 raise ApiViolation('C04|api|macro|%s' % cls_, {'step': k, 'op': op, 'name': n, 'real': got, 'model': m.lookup(n),
                                                                'frames': [sorted(f['macros'].items()) for f in m.frames]})
+        for n in FRESH:
+            exp = m.lookup(n)
+            seen = [bool(n in ctx), n in list(ctx.keys()), bool(ctx.has_key(n)), bool(n in ctx.top)]
+            if seen != [exp is not None] * 4:
+                raise ApiViolation('C04|api|defined|%s' % ('restored' if o == 'CLOSE' else o.lower()),
+                                   {'step': k, 'op': op, 'name': n, 'real [in, keys(), has_key, in top]': seen, 'model': exp})
+            if exp is not None:
+                got = ''.join(str(t) for t in (getattr(ctx[n], 'definition', None) or []))
+                if got != exp:
+                    raise ApiViolation('C04|api|macro|%s' % ('local-leaked' if o == 'CLOSE' else o.lower()),
+                                       {'step': k, 'op': op, 'name': n, 'real': got, 'model': exp})
         for n in ALLNAMES:
             tok = EscapeSequence(n)
             got = ctx.get_let(tok)
@@ -389,6 +405,10 @@ def compile_tex(ops, global_prefix=False):
         elif what in LNAMES:
             src.append('x\\%s ' % what)
             exp.append('x' + (m.get_let(what) or m.lookup(what)))
+        elif what == 'fresh':
+            for n in FRESH:
+                src.append('x\\ifdefined\\%s \\%s\\else U\\fi ' % (n, n))
+                exp.append('x' + (m.lookup(n) or 'U'))
         elif what == 'if':
             src.append('x\\ifsw T\\else F\\fi ')
             exp.append('xT' if m.ifstate else 'xF')
@@ -396,7 +416,7 @@ def compile_tex(ops, global_prefix=False):
             src.append('x\\arabic{cx} ')
             exp.append('x%d' % m.counter)
         else:
-            for w in NAMES + LNAMES + ['cat', 'if', 'counter']:
+            for w in NAMES + LNAMES + ['cat', 'if', 'counter', 'fresh']:
                 probe(w)
 
     for op in ops:
@@ -584,6 +604,7 @@ def run_cat(op):
 
 DFS_ALPHABET = [{'op': 'OPEN', 'kind': 'brace'}, {'op': 'OPEN', 'kind': 'center'}, {'op': 'CLOSE'},
                 {'op': 'DEF_LOCAL', 'name': 'na'}, {'op': 'DEF_LOCAL', 'name': 'nb'}, {'op': 'DEF_GLOBAL', 'name': 'na'},
+                {'op': 'DEF_GLOBAL', 'name': 'qfa'},
                 {'op': 'LET', 'dst': 'na', 'src': 'nb'}, {'op': 'CATCODE', 'code': 11}, {'op': 'CATCODE', 'code': 12},
                 {'op': 'LETCHAR', 'dst': 'la', 'ch': 'u'}, {'op': 'DECL', 'name': 'small'}]
 
@@ -778,6 +799,8 @@ def _classify(expected, got, n):
     seg = expected[i:i + 4]
     if seg[1:2] == 'n':
         return 'macro'
+    if seg[1:2] in ('q', 'U'):
+        return 'defined'
     if seg[1:2] in ('L', 'O'):
         return 'catcode'
     if seg[1:2] in ('T', 'F'):
@@ -793,7 +816,7 @@ def simplify(record):
         if op.get('op') == 'OPEN' and op['kind'] != 'brace':
             yield dict(record, ops=ops[:i] + [dict(op, kind='brace')] + ops[i + 1:])
         if op.get('op') == 'PROBE' and op['what'] == 'all':
-            for w in NAMES + ['cat', 'if', 'counter']:
+            for w in NAMES + ['cat', 'if', 'counter', 'fresh']:
                 yield dict(record, ops=ops[:i] + [dict(op, what=w)] + ops[i + 1:])
     sw = record['swarm']
     if len(sw.get('transports', [])) > 1:
